@@ -744,3 +744,33 @@ def rule_matsown(ctx: Ctx) -> List[Ob]:
                                       ": the matrices no longer are the reference function of the stored pairs"),
                                       False, construct=f"{f.qual}: {short(tt)} <-"))
     return obs
+
+
+@rule("USEFACT", min_instances=1)
+def rule_usefact(ctx: Ctx) -> List[Ob]:
+    """"is there a stored pair" is decided exactly: LBFGSB_MATRICES.use_factor compares the factor with the placeholder of an
+    empty memory (one entry, equal to 0) by == / != only -- a test up to a tolerance (allclose, isclose, a threshold on the
+    magnitude) declares a small-valued memory empty, and the Cauchy and subspace steps then drop the W M W' terms"""
+    f = ctx.repo.func("bfgsmats.LBFGSB_MATRICES.use_factor")
+    obs: List[Ob] = []
+    bad = []
+    for n in walk_no_nested(f.node):
+        if isinstance(n, ast.Call):
+            d = (dotted(n.func) or "").split(".")[-1]
+            if d in ("allclose", "isclose", "abs", "fabs", "norm", "max", "min", "amax", "absolute"):
+                bad.append((n, f"`{short(n, 50)}`: a magnitude / tolerance test"))
+        if isinstance(n, ast.Compare):
+            for op, c in zip(n.ops, n.comparators):
+                if isinstance(op, (ast.Lt, ast.LtE, ast.Gt, ast.GtE)):
+                    bad.append((n, f"`{short(n, 50)}`: an ordering test (threshold), not an equality with the placeholder"))
+                for k in [c, n.left]:
+                    if isinstance(k, ast.Constant) and isinstance(k.value, float) and k.value not in (0.0, 1.0):
+                        bad.append((n, f"`{short(n, 50)}`: compares with {k.value}"))
+    rets = [r for r in walk_no_nested(f.node) if isinstance(r, ast.Return) and r.value is not None]
+    need(len(rets) >= 1, "USEFACT: use_factor has no return")
+    for n, why in bad:
+        obs.append(ob("USEFACT", "the memory is recognised as empty by an exact test only", f, n, False, why, construct=short(n, 60)))
+    if not bad:
+        obs.append(ob("USEFACT", "the memory is recognised as empty by an exact test only", f, rets[0], True,
+                      f"returns {short(rets[0].value, 80)}", construct="use_factor"))
+    return obs
